@@ -45,6 +45,7 @@ def run(ctx):
     data_table(ctx, g)
     orbit_type_labels(ctx, g)
     invariant_key(ctx, g)
+    orbifold_graph_shape(ctx, g)
     ctx.clauses.append("no panic from the point-group lookup (shared with C15)")
     c15.candidates(ctx, g)
     c15.point_groups(ctx, g)
@@ -115,6 +116,105 @@ def orbit_type_labels(ctx, g):
             ctx.ob("T2-mirror-test", b.name, "v = ds.v(i, j, d)", "ok" if okv else "violation", "the label's degree is the orbit's own branching number" if okv else "the degree is not ds.v(i, j, d): " + show(a, 1)[:60])
     ctx.require(v_ is not None, "T2-mirror-test", b.name, "v anchor", "degree found", "ds.v(i, j, d).unwrap() not found")
 
+
+
+def orbifold_graph_shape(ctx, g):
+    """orbifold_graph(ds): one node per mirror chamber (i, d) with op(i, d) = d, per (i, j)-orbit of non-trivial type for ALL six index pairs, per
+    (i, j, k)-orbit of non-trivial 2D orbifold type for ALL four index triples - in this order, because each phase links its nodes to the
+    nodes of the sub-orbits registered before; every phase uses ONE index set for representatives, type, members and sub-orbit lookup"""
+    ctx.clauses.append("orbifold_graph: nodes for mirrors, all 6 index pairs, all 4 index triples (ascending, in this order), each phase consistent in its index set; result = sort_nodes(compress_graph(..)) (T9)")
+    b = ctx.body("delaney3d::orbifold_graph")
+    ctx.scan([b])
+    ds = ("param", 1, b.debug.get(1, ""))
+    import itertools
+    arrays = []
+    for bi, si, s in b.assigns():
+        rv = s["rv"]
+        if rv["k"] == "aggregate" and rv.get("agg") == "array":
+            arrays.append(strip(norm(b.rv_origin(rv), g)))
+    def lit(a):
+        if a[0] == "agg" and a[1] in ("array", "tuple"):
+            xs = [lit(x) for x in a[2]]
+            return None if any(x is None for x in xs) else tuple(xs)
+        return eval_int(a)
+    lits = [lit(a) for a in arrays]
+    pairs = [l for l in lits if l and all(isinstance(x, tuple) and len(x) == 2 and all(isinstance(y, int) for y in x) for x in l)]
+    triples = [l for l in lits if l and all(isinstance(x, tuple) and len(x) == 3 and all(isinstance(y, int) for y in x) for x in l)]
+    want2 = set(itertools.combinations(range(4), 2))
+    want3 = set(itertools.combinations(range(4), 3))
+    bad = None
+    if len(pairs) != 1 or set(pairs[0]) != want2 or len(pairs[0]) != 6:
+        bad = "the index pairs visited are %s, not all six ascending pairs of 0..=3" % (pairs[0] if pairs else None,)
+    elif len(triples) != 1 or set(triples[0]) != want3 or len(triples[0]) != 4:
+        bad = "the index triples visited are %s, not all four ascending triples of 0..=3" % (triples[0] if triples else None,)
+    ctx.ob("T9-orbifold-graph", b.name, "index sets", "ok" if not bad else "violation", "6 pairs and 4 triples, each ascending (sub-orbit keys are looked up as ascending lists)" if not bad else bad)
+    # phases
+    reps = [(bi, [strip(norm(b.origin(a), g)) for a in t["args"]]) for bi, t in b.calls(exact="dsets::DSet::orbit_reps")]
+    orbs = [(bi, [strip(norm(b.origin(a), g)) for a in t["args"]]) for bi, t in b.calls(exact="dsets::DSet::orbit")]
+    subs = [(bi, [strip(norm(b.origin(a), g)) for a in t["args"]]) for bi, t in b.calls("delaney3d::suborbit_numbers")]
+    ty1 = [(bi, [strip(norm(b.origin(a), g)) for a in t["args"]]) for bi, t in b.calls("delaney3d::orbit_type_1d")]
+    sub3 = [(bi, [strip(norm(b.origin(a), g)) for a in t["args"]]) for bi, t in b.calls("derived::subsymbol")]
+    bad = None
+
+    def same_set(x, y):
+        # orbit(..) does not depend on the order of its indices
+        if x[0] == "agg" and y[0] == "agg" and x[1] == y[1] == "array":
+            return sorted(map(repr, (strip(z) for z in x[2]))) == sorted(map(repr, (strip(z) for z in y[2])))
+        return x == y
+    if not (len(reps) == 2 and len(orbs) == 2 and len(subs) == 2 and len(ty1) == 1 and len(sub3) == 1):
+        bad = "not two phases with orbit_reps / orbit / suborbit_numbers each (%d, %d, %d), one orbit_type_1d and one subsymbol" % (len(reps), len(orbs), len(subs))
+    else:
+        full = lambda r: is_call(r, "RangeInclusive::<Idx>::new") and eval_int(r[2][0]) == 1 and is_call(strip(r[2][1]), "::size")
+        for k in (0, 1):
+            I = reps[k][1][1]
+            dterm = orbs[k][1][2]
+            src = iter_source(b, dterm, g)
+            if not (reps[k][1][0] == ds and full(reps[k][1][2])):
+                bad = bad or "phase %d: representatives are not taken over all chambers 1..=size() of ds" % (k + 2)
+            elif not (isinstance(src, tuple) and contains(norm(src, g), lambda y: is_call(y, "DSet::orbit_reps") and strip(y[2][1]) == I)):
+                bad = bad or "phase %d: the orbit walked is not that of the representative" % (k + 2)
+            elif not same_set(orbs[k][1][1], I) or subs[k][1][0] != I or subs[k][1][1] != dterm or subs[k][1][2] != ds:
+                bad = bad or "phase %d: representatives, members and sub-orbit lookup do not use one index set and one chamber (%s / %s / %s)" % (k + 2, show(I, 1)[:30], show(orbs[k][1][1], 1)[:30], show(subs[k][1][0], 1)[:30])
+        if not bad:
+            I2 = reps[0][1][1]
+            a = ty1[0][1]
+            if not (I2[0] == "agg" and len(I2[2]) == 2 and a[0] == ds and (a[1], a[2]) == (strip(I2[2][0]), strip(I2[2][1])) and a[3] == orbs[0][1][2]):
+                bad = "the type of a pair orbit is not orbit_type_1d(ds, i, j, d) for the phase's own (i, j) and representative"
+            s3 = sub3[0][1]
+            if not bad and not (s3[0] == ds and s3[1] == reps[1][1][1] and s3[2] == orbs[1][1][2]):
+                bad = "the type of a triple orbit is not orbifold_symbol(subsymbol(ds, idcs, d)) for the phase's own idcs and representative"
+        if not bad and not (reps[1][0] in b.fwd(reps[0][0]) and reps[0][0] not in b.fwd(reps[1][0])):
+            bad = "the pair phase does not come before the triple phase (triple nodes are linked to pair nodes registered earlier)"
+    mir = [bi for bi, t in b.calls("HashMap::<K, V, S>::insert") or b.calls("::insert")]
+    r = strip(norm(b.local_origin(0), g))
+    if not bad and not (is_call(r, "delaney3d::sort_nodes") and is_call(strip(r[2][0]), "delaney3d::compress_graph")):
+        bad = "the result is not sort_nodes(compress_graph(..))"
+    ctx.ob("T9-orbifold-graph", b.name, "phases", "ok" if not bad else "violation",
+           "pairs then triples; one index set and representative per phase for type, members and sub-orbit links; sort_nodes(compress_graph(..))" if not bad else bad)
+    # suborbit_numbers: for each k in idcs: the orbits under idcs minus k, met by the chambers of the idcs-orbit of d
+    sb = ctx.body("delaney3d::suborbit_numbers")
+    ctx.scan(ctx.facts.with_closures(sb.name))
+    bad = None
+    flt = list(sb.calls("Iterator::filter"))
+    gets = list(sb.calls("HashMap::<K, V, S>::get")) or list(sb.calls("::get"))
+    orb = list(sb.calls(exact="dsets::DSet::orbit"))
+    if len(flt) != 1 or len(gets) != 1 or len(orb) != 1:
+        bad = "not one filter / one orbit / one lookup"
+    else:
+        res = closure_result(ctx.facts, sb.origin(flt[0][1]["args"][1]), g)
+        res = strip(res) if res is not None else None
+        okf = res is not None and res[0] == "binop" and res[1] == "Ne"
+        oa = [strip(norm(sb.origin(a), g)) for a in orb[0][1]["args"]]
+        oko = oa[0] == ("param", 3, sb.debug.get(3, "")) and oa[2] == ("param", 2, sb.debug.get(2, ""))
+        key = strip(norm(sb.origin(gets[0][1]["args"][1]), g))
+        okk = key[0] == "agg" and key[1] == "tuple" and len(key[2]) == 2 and contains(key[2][0], lambda y: is_call(y, "Iterator::filter") or is_call(y, "Clone::clone"))
+        el = strip(key[2][1]) if okk else None
+        srcs = iter_source(sb, el, g) if okk else None
+        okk = okk and isinstance(srcs, tuple) and contains(norm(srcs, g), lambda y: is_call(y, "DSet::orbit"))
+        if not (okf and oko and okk):
+            bad = "suborbit_numbers is not `for k in idcs: for e in ds.orbit(idcs, d): orbit_nr.get((idcs without k, e))` (filter i != k: %s, orbit(idcs, d) of ds: %s, key (subidcs, e): %s)" % (okf, oko, okk)
+    ctx.ob("T9-orbifold-graph", sb.name, "sub-orbit lookup", "ok" if not bad else "violation",
+           "for every k: the (idcs minus k)-orbits met by the chambers of the idcs-orbit of d" if not bad else bad)
 
 
 def invariant_key(ctx, g):
